@@ -17,6 +17,7 @@ import Clem.Gen.Determinism
 import Clem.Proofs.C01Turn
 import Clem.Proofs.Sort
 import Clem.Proofs.KeySuff
+import Clem.Props.C01.Compose
 
 set_option linter.unusedSimpArgs false
 
